@@ -7,7 +7,7 @@ from typing import Dict, List, Optional, Set
 
 from fsa.effects import direct_writes
 from fsa.match import dict_slot, dotted, is_call, is_const, is_self_call, is_super_call, is_underscore_key, kwarg, method_call, has_star_args
-from fsa.source import c3_mro, iter_own_nodes, resolve_method, stmt_key, text
+from fsa.source import Unsupported, c3_mro, iter_own_nodes, resolve_method, stmt_key, text
 from rules.common import Fn
 
 A = 'fsic.extensions.common.AliasMixin'
@@ -95,34 +95,148 @@ def r2_constructor(R) -> None:
     if R.require(q, len(st), "self.__dict__['aliases'] = aliases", fi=f.fi, pred=lambda x: isinstance(x, ast.Constant) and x.value == 'aliases'):
         R.check(st[0].id in f.dom[n.id], q, 'aliases-before-base', 'the alias map exists before the base constructor runs',
                 'the base constructor can run before the alias map is set', where=f.where(st[0]))
-    # chain shortening
-    wh = [m for m in f.cfg.nodes if m.kind == 'while']
-    ok = False
-    filt_ok = False
-    if wh:
-        # break condition: no name is both key and value
-        brk = [t for t in f.tests() if wh[0].id in t.loops and 'set(aliases.keys()) & set(aliases.values())' in text(t.ast)]
-        comps = [d for d in f.assigns_to('aliases') if wh[0].id in d.loops and isinstance(d.ast.value, ast.DictComp)]
-        sub = [d for d in comps if not d.ast.value.generators[0].ifs]
-        filt = [d for d in comps if d.ast.value.generators[0].ifs and text(d.ast.value.generators[0].ifs[0]) in ('k != v', 'v != k')]
-        if brk and sub:
-            dc = sub[0].ast.value
-            kv = [x.id for x in ast.walk(dc.generators[0].target) if isinstance(x, ast.Name)]
-            ok = text(dc.key) == kv[0] and text(dc.value) == f'aliases.get({kv[1]}, {kv[1]})' and text(dc.generators[0].iter) == 'aliases.items()'
-        # a self-map (X -> X) is in both keys and values for ever: it must be dropped before the termination test, in the loop
-        if brk and filt:
-            filt_ok = all(any(fl.id in f.dom[b.id] for fl in filt) for b in brk)
-    R.check(ok, q, 'chain-shortening', 'chains are shortened by substituting values through the map until no value is a key',
+    # chain shortening: typestate of the alias map along the CFG.  FREE = holds no self-map (k -> k).  AM value is read as
+    # nested operations on the previous map: filter({k: v ... if k != v}) -> FREE; substitution ({k: m.get(v, v) ...}) and
+    # the initial copy -> not FREE.  Required: the map is FREE at every evaluation of the termination test (a self-map is in
+    # both keys and values for ever) and at the final store; the loop leaves exactly when keys and values are disjoint.
+    from fsa.gated import _as_test
+    if not st:
+        return
+    A_expr = st[0].ast.value
+    if not isinstance(A_expr, ast.Name):
+        raise Unsupported(f'{q}: the stored alias map `{text(A_expr)[:40]}` is not a local name')
+    AM = A_expr.id
+
+    def parse(e: ast.AST):
+        """('A') | ('init') | ('filter', inner) | ('subst', inner) | None"""
+        if isinstance(e, ast.Name) and e.id == AM:
+            return ('A',)
+        if is_call(e, 'copy.deepcopy', 'copy.copy', 'dict') and len(e.args) == 1 and text(e.args[0]) in ('self.ALIASES', 'type(self).ALIASES', 'self.__class__.ALIASES'):
+            return ('init',)
+        if isinstance(e, ast.DictComp) and len(e.generators) == 1:
+            g = e.generators[0]
+            kv = [x.id for x in ast.walk(g.target) if isinstance(x, ast.Name)]
+            if len(kv) == 2 and method_call(g.iter, 'items') and not g.iter.args and text(e.key) == kv[0]:
+                inner = parse(g.iter.func.value)
+                if inner is None:
+                    return None
+                conds = [(text(a_), tr) for c_ in g.ifs for (a_, tr) in __import__('fsa.match', fromlist=['nnf_atoms']).nnf_atoms(c_, True)]
+                if text(e.value) == kv[1] and conds in ([(f'{kv[0]} == {kv[1]}', False)], [(f'{kv[1]} == {kv[0]}', False)]):
+                    return ('filter', inner)
+                if not conds and method_call(e.value, 'get') and [text(a_) for a_ in e.value.args] == [kv[1], kv[1]] \
+                        and ast.dump(e.value.func.value) == ast.dump(g.iter.func.value):
+                    return ('subst', inner)
+        return None
+
+    def has(op, kind):
+        while op is not None and len(op) > 1:
+            if op[0] == kind:
+                return True
+            op = op[1]
+        return False
+
+    defs = {}
+    for d in f.vdefs(AM):
+        x = f.expand(d.node.id, d.value, stop=(AM,), comps=True)
+        op = parse(x)
+        if op is None:
+            raise Unsupported(f'{q}: `{AM} = {text(x)[:80]}` is not a copy, a self-map filter or a substitution step of the alias map')
+        defs[d.node.id] = op
+    # forward may-analysis: set of possible states of AM at node entry
+    FREE, NOT, UNDEF_ = 'free', 'not-free', 'undef'
+    state_in = {n.id: set() for n in f.cfg.nodes}
+    state_in[f.cfg.entry] = {UNDEF_}
+    work = [f.cfg.entry]
+    while work:
+        nid = work.pop()
+        cur = state_in[nid]
+        if nid in defs:
+            op = defs[nid]
+            if op[0] == 'filter':
+                out = {FREE}
+            elif op[0] == 'A':
+                out = set(cur)
+            else:
+                out = {NOT}
+        else:
+            out = set(cur)
+        for (b_, lab) in f.cfg.nodes[nid].succ:
+            if not out <= state_in[b_]:
+                state_in[b_] |= out
+                work.append(b_)
+    inter_forms = {f'set({AM}.keys()) & set({AM}.values())', f'set({AM}.values()) & set({AM}.keys())', f'set({AM}) & set({AM}.values())', f'set({AM}.values()) & set({AM})',
+                   f'{AM}.keys() & set({AM}.values())', f'{AM}.keys() & {AM}.values()'}
+    term_tests = []
+    for t in f.cfg.nodes:
+        if t.kind not in ('test', 'while') or not t.loops and t.kind != 'while':
+            continue
+        te = _as_test(t.ast if t.kind == 'test' else t.ast.test)
+        pos = True
+        if isinstance(te, ast.UnaryOp) and isinstance(te.op, ast.Not):
+            te, pos = te.operand, False
+        if text(te) in inter_forms:
+            term_tests.append((t, pos))
+    if not term_tests:
+        raise Unsupported(f'{q}: no test of `set(keys) & set(values)` controls the shortening loop')
+    # every way out of the shortening loop is the "disjoint" outcome of the termination test
+    for lid in {t.id if t.kind == 'while' else t.loops[-1] for (t, _p) in term_tests}:
+        L = f.cfg.nodes[lid]
+        exits = []
+        for (b_, lab) in L.succ:
+            if lab in ('exhausted', 'F') and not (L.kind == 'while' and isinstance(L.ast.test, ast.Constant) and L.ast.test.value):
+                exits.append((L, lab))
+        for n_ in f.cfg.nodes:
+            if lid in n_.loops and isinstance(n_.ast, ast.Break) and n_.loops[-1] == lid:
+                exits.append((n_, 'break'))
+        for (x_, lab) in exits:
+            fine = False
+            for (t, pos) in term_tests:
+                empty_lab = 'F' if pos else 'T'
+                if x_ is t and lab == empty_lab:
+                    fine = True
+                if lab == 'break' and any(b_ == x_.id and l2 == empty_lab for (b_, l2) in t.succ):
+                    fine = True
+            R.check(fine, q, f'shortening-exit:{x_.label()[:30]}:{lab}', 'the shortening loop is left only when no name is both alias and target',
+                    f'the shortening loop can be left through `{x_.label()[:50]}` ({lab}) while some value is still a key: longer chains stay unresolved '
+                    f'(X -> Y -> Z -> W leaves X -> Z)', where=f.where(x_))
+    for (t, pos) in term_tests:
+        # on the edge where the intersection is empty, control leaves the loop
+        empty_lab = 'F' if pos else 'T'
+        leaves = False
+        for (b_, lab) in t.succ:
+            if lab == empty_lab:
+                tgt = f.cfg.nodes[b_]
+                loop_id = t.id if t.kind == 'while' else t.loops[-1]
+                leaves = (t.kind == 'while' and loop_id not in tgt.loops and b_ != t.id) or (isinstance(tgt.ast, ast.Break))
+        R.check(leaves, q, 'shortening-terminates-when-disjoint', 'the shortening loop ends exactly when no name is both alias and target',
+                f'`{t.label()[:70]}`: the loop does not leave when keys and values are disjoint', where=f.where(t))
+        ok_free = state_in[t.id] <= {FREE} and bool(state_in[t.id])
+        R.check(ok_free, q, 'selfmaps-before-termination-test', 'self-maps are dropped before every evaluation of the termination test (the loop terminates on self-maps)',
+                'the shortening loop tests `keys & values` without first dropping self-maps: an alias that points to itself (ALIASES = {"Y": "Y", ...}) keeps the loop running forever',
+                where=f.where(t))
+    loop_ids = {t.id if t.kind == 'while' else t.loops[-1] for (t, _p) in term_tests}
+    subst_in_loop = [nid for nid, op in defs.items() if (has(op, 'subst') or op[0] == 'subst') and any(l in f.cfg.nodes[nid].loops for l in loop_ids)]
+    R.check(bool(subst_in_loop), q, 'chain-shortening', 'chains are shortened by substituting values through the map until no value is a key',
             'chain shortening is not `aliases = {k: aliases.get(v, v) ...}` until keys and values are disjoint', where=f.fi.where)
-    R.check(filt_ok, q, 'selfmaps-before-termination-test', 'self-maps are dropped inside the shortening loop, before its termination test (the loop terminates on self-maps)',
-            'the shortening loop tests `keys & values` without first dropping self-maps: an alias that points to itself (ALIASES = {"Y": "Y", ...}) keeps the loop running forever',
-            where=f.fi.where)
-    selfmaps = [d for d in f.assigns_to('aliases') if isinstance(d.ast.value, ast.DictComp) and d.ast.value.generators[0].ifs and not d.loops]
-    ok = bool(selfmaps) and text(selfmaps[0].ast.value.generators[0].ifs[0]) in ('k != v', 'v != k')
-    R.check(ok, q, 'drop-self-maps', 'self-maps are dropped', 'self-maps are not dropped after shortening', where=f.fi.where)
-    # ambiguous preferences
+    R.check(state_in[st[0].id] <= {FREE} and bool(state_in[st[0].id]), q, 'drop-self-maps', 'the stored map holds no self-map',
+            f'self-maps are not dropped before the map is stored (possible states: {sorted(state_in[st[0].id])})', where=f.where(st[0]))
+    R.check(any(op == ('init',) or has(op, 'init') or (len(op) > 1 and op[-1] == ('init',)) or 'init' in repr(op) for op in defs.values()), q, 'aliases-from-class',
+            'the instance map starts as a copy of the class-level ALIASES', 'the alias map is not initialised from a copy of ALIASES', where=f.fi.where)
+    # ambiguous preferences: a target already referenced by an earlier preferred name raises ValueError
     rs = f.raises('ValueError')
-    R.check(len(rs) == 1 and any(truth and text(a) == 'target in seen' for (a, truth, _t) in f.guard_atoms(rs[0].id)), q, 'ambiguous-preferences',
+    ok = False
+    for r in rs:
+        for (a_, truth, _t) in f.guard_atoms(r.id):
+            if truth and isinstance(a_, ast.Compare) and len(a_.ops) == 1 and isinstance(a_.ops[0], ast.In) and isinstance(a_.comparators[0], ast.Name) and r.loops:
+                seen_nm = a_.comparators[0].id
+                lp = f.cfg.nodes[r.loops[-1]]
+                tv = text(lp.ast.target)
+                tgt = f.etext(_t.id, a_.left, stop=(tv,))
+                apps = [n_ for n_ in f.cfg.nodes if n_.ast is not None and n_.kind == 'stmt' and lp.id in n_.loops
+                        and any(method_call(x, 'append') and text(x.func.value) == seen_nm and len(x.args) == 1 and f.etext(n_.id, x.args[0], stop=(tv,)) == tgt for x in ast.walk(n_.ast))]
+                if tgt in (f'{AM}.get({tv}, {tv})', f"self.__dict__['aliases'].get({tv}, {tv})", f'self._resolve_alias({tv})') and apps:
+                    ok = True
+    R.check(len(rs) >= 1 and ok, q, 'ambiguous-preferences',
             'two preferred names for one variable are rejected', 'no ValueError for duplicate preferred names', where=f.fi.where)
 
 
